@@ -432,7 +432,12 @@ TIES = {
     'C15': ('SrcRi.v', ['PyPrelude', 'PgmState', 'NpState', 'SrcUf', 'EquivUf', 'RiState', 'SrcRi', 'EquivRi'], 'EquivRi'),
     'C18': ('SrcSs.v', ['PyPrelude', 'PgmState', 'SsState', 'SrcSs', 'EquivSs'], 'EquivSs'),
     'C19': ('SrcPa.v', ['PyPrelude', 'PgmState', 'PaState', 'SrcPa', 'EquivPa'], 'EquivPa'),
-    'C09': ('SrcRp.v', ['PyPrelude', 'PgmState', 'RpState', 'SrcRp', 'EquivRp'], 'EquivRp'),
+    'C09': [('SrcRp.v', ['PyPrelude', 'PgmState', 'RpState', 'SrcRp', 'EquivRp'], 'EquivRp'),
+            # each writer stores the estimate of an export on every export (WFab; nothing stored under `if verbose`)
+            ('SrcWn.v', ['PyPrelude', 'PgmState', 'WnState', 'SrcWn', 'EquivWn'], 'EquivWn'),
+            ('SrcTn.v', ['PyPrelude', 'PgmState', 'TnState', 'SrcTn', 'EquivTn'], 'EquivTn'),
+            # Trench.toolpath restarts both lengths before reading either
+            ('SrcRt.v', ['PyPrelude', 'PgmState', 'TrState', 'RtState', 'SrcRt', 'EquivRt'], 'EquivRt')],
     'C07': ('SrcTr.v', ['PyPrelude', 'PgmState', 'TrState', 'SrcTr', 'EquivTr'], 'EquivTr'),
 }
 TIE_NEEDS = {'SrcWr.v': ['pgm'], 'SrcFc.v': ['pgm'], 'SrcDev.v': ['SrcAe.v'], 'SrcRi.v': ['SrcUf.v']}      # other generated files a group builds on
